@@ -1,1 +1,4 @@
+import SedpackProps.C10
+import SedpackProps.C11
 import SedpackProps.C16
+import SedpackProps.C18
